@@ -39,6 +39,7 @@ func checkC11(c *Check) {
 	c11Eviction(c)
 	c11OutcomeMatchesCase(c)
 	c11DestKeyIsTakeKey(c, "R10")
+	c11NoNegativeChannelSize(c, "R12")
 
 	// the endpoint's permits: C03.R5 / C03.immut (acquire/release pairing and key agreement in the SMTP session) are
 	// this property's rules for the endpoint scope; they are re-evaluated here.
@@ -50,6 +51,12 @@ func checkC11(c *Check) {
 			continue
 		}
 		c.Hold("R3", o.Rule+":"+o.Key, o.posRaw, o.OK, o.Msg)
+	}
+	c.Rule("R3d", "a session that the SMTP library replaces (repeated EHLO / LHLO, also in the middle of a BDAT transfer) is logged out by the library or by NewSession: its open transaction is aborted and its permits are given back (C03.A1)", 1)
+	for _, o := range sub.obs {
+		if o.Rule == "A1" && strings.Contains(o.Key, "replaced") {
+			c.Hold("R3d", o.Rule+":"+o.Key, o.posRaw, o.OK, o.Msg)
+		}
 	}
 	for f := range sub.funcs {
 		c.SawFunc(f)
